@@ -293,7 +293,7 @@ def _memo_parse_inner(path, missing_data_token=None):
 # run classes
 # --------------------------------------------------------------------------
 def config_for(i, tier='quick'):
-    memo = (i % 10) != 9
+    memo = (i % 11) != 10
     jumps = (i % 3) == 1
     if i % 40 == 20:
         c = {'mode': 'scale', 'memo': memo, 'clock_jumps': False}
